@@ -5,7 +5,8 @@ CHECKS["C13"] = dict(
          "anisotropic refinement, updateGrid incl. curved weights with negative sum, dynamic construction candidates/deliveries, merge, removal, copies; observers: evaluateBatch, dense and sparse hierarchical functions, "
          "quadrature/interpolation/differentiation weights, integrate, differentiate; PSO iterations; node optimiser) run on all 5 grid families in 2-D and 3-D; "
          "a spine process runs each history under the default schedule and, on entry of every outermost parallel region in turn, forks one execution per schedule of that region with <= k deviations from the default "
-         "(deviation-bounded DFS over the choice points: region start, critical entry/exit, every dynamic chunk acquisition, barrier release, loop-end-nowait, thread end/join), for team sizes 1,2,3(,4); "
+         "(deviation-bounded DFS over the choice points: region start, critical entry/exit, before every dynamic chunk acquisition and between obtaining a chunk and executing it, barrier release, loop-end-nowait, thread end/join); "
+         "quick: k = 1, team sizes 1,2,3 on 40 core histories; thorough: k = 1, team sizes 1,2,3,4 on all 137 histories plus k = 2, team sizes 2,3 on the 2-D core histories (choice points before every visible operation only); "
          "oracle on every execution: the observation after the step (binary write() bytes, structure through the public getters, numeric outputs) equals that of the serial (no -fopenmp) build of the same harness: "
          "bitwise, or else integers/words of the ASCII write and getters identical and floating values within 1e-13 of the magnitude; AddressSanitizer/UBSan clean; no deadlock/livelock/time-out; "
          "states = choice points visited, transitions = scheduling steps, execs = schedules executed on the real code, distinct = distinct (history, region, thread-order/chunk-assignment/critical-order trace) classes; "
